@@ -312,15 +312,15 @@ struct MemEngine : Engine {
             case OP_LOAD:
                 if (c.form == "rt") t->load(gp, c.n, areg[c.r]); else if (c.form == "art") t->aligned_load(gp, c.n, areg[c.r]);
                 else if (c.form == "ct") t->load_ct[c.n](gp, areg[c.r]); else if (c.form == "act") t->aligned_load_ct[c.n](gp, areg[c.r]);
-                else t->load_def(gp, areg[c.r]);
+                else if (c.form == "adef") t->aligned_load_def(gp, areg[c.r]); else t->load_def(gp, areg[c.r]);
                 break;
             case OP_STORE:
                 if (c.form == "rt") t->store(gp, areg[c.r], c.n); else if (c.form == "art") t->aligned_store(gp, areg[c.r], c.n);
                 else if (c.form == "ct") t->store_ct[c.n](gp, areg[c.r]); else if (c.form == "act") t->aligned_store_ct[c.n](gp, areg[c.r]);
-                else t->store_def(gp, areg[c.r]);
+                else if (c.form == "adef") t->aligned_store_def(gp, areg[c.r]); else t->store_def(gp, areg[c.r]);
                 break;
-            case OP_GATHER: if (c.form == "ct") t->gather_ct[c.n](gp, idxbuf, areg[c.r]); else t->gather(gp, idxbuf, c.n, areg[c.r]); break;
-            case OP_SCATTER: if (c.form == "ct") t->scatter_ct[c.n](gp, areg[c.r], idxbuf); else t->scatter(gp, areg[c.r], idxbuf, c.n); break;
+            case OP_GATHER: if (c.form == "ct") t->gather_ct[c.n](gp, idxbuf, areg[c.r]); else if (c.form == "def") t->gather_def(gp, idxbuf, areg[c.r]); else t->gather(gp, idxbuf, c.n, areg[c.r]); break;
+            case OP_SCATTER: if (c.form == "ct") t->scatter_ct[c.n](gp, areg[c.r], idxbuf); else if (c.form == "def") t->scatter_def(gp, areg[c.r], idxbuf); else t->scatter(gp, areg[c.r], idxbuf, c.n); break;
             case OP_FROMARR: t->from_array(gp, areg[c.r]); break;
             case OP_TOARR: t->to_array(areg[c.r], scratch); break;
             case OP_EXTRACT: t->extract[c.lane](areg[c.r], scratch); break;
@@ -387,11 +387,11 @@ struct MemEngine : Engine {
         c.p = (std::size_t)s.unum("p"); c.idx = s.list("idx");
         bool ctform = c.form == "ct" || c.form == "act";
         if (ctform && c.n > W) c.n = W;                       // compile-time forms only exist for N <= width
-        if (c.form == "def" || c.kind == OP_FROMARR) c.n = W;
+        if (c.form == "def" || c.form == "adef" || c.kind == OP_FROMARR) c.n = W;
         const unsigned m = std::min(c.n, W); const std::size_t len = (std::size_t)m * E;
         bool is_gs = c.kind == OP_GATHER || c.kind == OP_SCATTER;
         if (is_gs && !t->has_gather) { rr->log.linef("%d %s skipped (no gather/scatter for this type)", stepno, op.c_str()); return; }
-        bool aligned_form = c.form == "art" || c.form == "act";
+        bool aligned_form = c.form == "art" || c.form == "act" || c.form == "adef";
         bool mem_op = c.kind <= OP_FROMARR;
         // ---- harness sanity: the plan must make exactly the addressed elements accessible
         if (mem_op && !is_gs) {
@@ -718,14 +718,14 @@ struct MemEngine : Engine {
             for (unsigned ti = 0; ti < types.size(); ++ti) {
                 const MType* t = types[ti]; unsigned W = t->width;
                 for (unsigned op = 0; op < 2; ++op)                      // load, store
-                    for (unsigned form = 0; form < 5; ++form)            // rt art ct act def
+                    for (unsigned form = 0; form < 6; ++form)            // rt art ct act def adef
                         for (unsigned n = 0; n <= W + 2; ++n) {
-                            if ((form == 2 || form == 3) && n > W) continue; if (form == 4 && n != W) continue;
+                            if ((form == 2 || form == 3) && n > W) continue; if (form >= 4 && n != W) continue;
                             for (unsigned pl = 0; pl < 4; ++pl)          // end_flush, start_flush, both/straddle, mid
                                 for (unsigned bad = 0; bad < 2; ++bad) { if (pl == 3 && bad) continue; sweep.push_back({ti, (unsigned char)op, (unsigned char)form, (unsigned char)n, (unsigned char)pl, (unsigned char)bad, 0}); }
                         }
-                if (t->has_gather) for (unsigned op = 2; op < 4; ++op) for (unsigned form = 0; form < 2; ++form) for (unsigned n = 0; n <= W + 2; ++n) { if (form == 1 && n > W) continue;
-                    for (unsigned pl = 0; pl < 7; ++pl) sweep.push_back({ti, (unsigned char)op, (unsigned char)(form ? 2 : 0), (unsigned char)n, (unsigned char)pl, 0, 0}); }
+                if (t->has_gather) for (unsigned op = 2; op < 4; ++op) for (unsigned form = 0; form < 3; ++form) for (unsigned n = 0; n <= W + 2; ++n) { if (form == 1 && n > W) continue; if (form == 2 && n != W) continue;
+                    for (unsigned pl = 0; pl < 7; ++pl) sweep.push_back({ti, (unsigned char)op, (unsigned char)(form == 1 ? 2 : form == 2 ? 4 : 0), (unsigned char)n, (unsigned char)pl, 0, 0}); }
                 for (unsigned lane = 0; lane < W; ++lane) { sweep.push_back({ti, 6, 0, (unsigned char)lane, 0, 0, 0}); sweep.push_back({ti, 7, 0, (unsigned char)lane, 0, 0, 0});
                     // the lane under test holds each special element value in turn (bad = 1 + spec): lane access must be pure bit movement
                     for (unsigned spec = 0; spec < 8; ++spec) { sweep.push_back({ti, 6, 0, (unsigned char)lane, 0, (unsigned char)(1 + spec), 0}); sweep.push_back({ti, 7, 0, (unsigned char)lane, 0, (unsigned char)(1 + spec), 0}); } }
@@ -778,7 +778,7 @@ struct MemEngine : Engine {
     }
     std::uint64_t sweep_count() override { return sweep.size() + pfsweep.size() + stream_plans(); }
 
-    static const char* form_name(unsigned f) { static const char* F[5] = {"rt", "art", "ct", "act", "def"}; return F[f]; }
+    static const char* form_name(unsigned f) { static const char* F[6] = {"rt", "art", "ct", "act", "def", "adef"}; return F[f]; }
 
     void gs_indices(Step& s, const MType* t, unsigned n, unsigned variant, std::uint64_t salt, bool store) {
         // base pointer mid-window; active lanes aim at distinct elements next to page boundaries; inactive lanes are wild
@@ -831,7 +831,7 @@ struct MemEngine : Engine {
         s.op = OPN[sc.op];
         if (sc.op <= 1) {
             s.set("form", form_name(sc.form)); s.setu("n", sc.n);
-            bool aligned = sc.form == 1 || sc.form == 3; char bad = sc.bad ? 'R' : 'N';
+            bool aligned = sc.form == 1 || sc.form == 3 || sc.form == 5; char bad = sc.bad ? 'R' : 'N';
             if (sc.op == 0 && bad == 'R') bad = 'H';                       // for loads the second protection kind is a hole
             const char* kinds[6] = {"end_flush", "start_flush", "both", "mid", "straddle", "aligned"};
             if (sc.place >= 6) place(s, t, sc.n, aligned, sc.op == 1, "end_flush", 2 + (unsigned)(i % 3), sc.place - 5, bad);   // 'near': d elements short of the boundary
@@ -839,7 +839,7 @@ struct MemEngine : Engine {
             s.set("fault", sc.fault == 1 ? "watch" : sc.fault == 2 ? "neigh" : "none"); if (sc.fault == 2) { s.set("k", "all"); s.setu("ntag", i); }
             if (edge_spec) bad = 'N';
         } else if (sc.op <= 3) {
-            s.set("form", sc.form ? "ct" : "rt"); s.setu("n", sc.n); gs_indices(s, t, sc.n, sc.place, i, sc.op == 3); s.set("fault", "none");
+            s.set("form", form_name(sc.form)); s.setu("n", sc.n); gs_indices(s, t, sc.n, sc.place, i, sc.op == 3); s.set("fault", "none");
             if (sc.op == 2 && i % 3 == 2) {   // the gathered elements themselves hold special values (zero, all ones, sign bit, NaN ...)
                 const std::size_t spots[4] = {3 * PG - 256, 4 * PG, 4 * PG + 512, 1 * PG};
                 for (std::size_t sp : spots) { Step f; f.op = "fill"; f.setu("p", sp); f.setu("len", 256); f.setu("tag", i + sp); f.setu("cls", 6); f.setu("e", t->elem); out.steps.push_back(f); }
@@ -922,14 +922,14 @@ struct MemEngine : Engine {
             unsigned n = (unsigned)(r.chance(1, 6) ? W + r.below(3) : r.chance(1, 8) ? 0 : r.below(W + 1));
             if (w < 40 || w < 68) {
                 bool store = w >= 40; s.op = store ? "store" : "load";
-                unsigned form = (unsigned)r.below(9); form = form < 3 ? 0 : form < 5 ? 1 : form < 7 ? 2 : form < 8 ? 3 : 4;
-                if ((form == 2 || form == 3) && n > W) n = W; if (form == 4) n = W;
+                unsigned form = (unsigned)r.below(10); form = form < 3 ? 0 : form < 5 ? 1 : form < 7 ? 2 : form < 8 ? 3 : form < 9 ? 4 : 5;
+                if ((form == 2 || form == 3) && n > W) n = W; if (form >= 4) n = W;
                 s.set("form", form_name(form)); s.setu("n", n);
                 static const char* kinds[6] = {"end_flush", "start_flush", "both", "mid", "straddle", "aligned"};
                 unsigned kc = (unsigned)r.below(focus_val ? 12 : 8); const char* kind = kinds[kc < 3 ? 0 : kc < 5 ? 1 : kc == 5 ? 2 : kc == 6 ? 4 : 3];
                 unsigned d = r.chance(1, 3) ? (unsigned)r.below(W + 1) : 0;
                 char bad = store ? (r.chance(1, 2) ? 'N' : r.chance(1, 2) ? 'R' : 'H') : (r.chance(2, 3) ? 'N' : 'H');
-                place(s, t, n, form == 1 || form == 3, store, kind, 1 + (unsigned)r.below(6), d, bad);
+                place(s, t, n, form == 1 || form == 3 || form == 5, store, kind, 1 + (unsigned)r.below(6), d, bad);
                 if (!store && r.chance(1, 3)) { Step f; f.op = "fill"; f.setu("p", s.unum("p")); f.setu("len", (std::uint64_t)t->width * t->elem); f.setu("tag", r.below(1u << 24)); f.setu("cls", 1 + r.below(6)); f.setu("e", t->elem); out.steps.push_back(f); }
                 unsigned fk = (unsigned)r.below(10);
                 if ((fmask & 1) && fk < 3) s.set("fault", "watch");
@@ -937,7 +937,8 @@ struct MemEngine : Engine {
                 else s.set("fault", "none");
             } else if (w < 84 && t->has_gather) {
                 bool sc = r.chance(1, 2); s.op = sc ? "scatter" : "gather"; bool ct = r.chance(1, 3); if (ct && n > W) n = W;
-                s.set("form", ct ? "ct" : "rt"); s.setu("n", n); gs_indices(s, t, n, (unsigned)r.below(7), r.next() % 1000, sc);
+                bool gdef = !ct && r.chance(1, 8); if (gdef) n = W;
+                s.set("form", ct ? "ct" : gdef ? "def" : "rt"); s.setu("n", n); gs_indices(s, t, n, (unsigned)r.below(7), r.next() % 1000, sc);
                 if (!sc && r.chance(1, 3)) { const std::size_t spots[4] = {3 * PG - 256, 4 * PG, 4 * PG + 512, 1 * PG};
                     for (std::size_t sp : spots) { Step f; f.op = "fill"; f.setu("p", sp); f.setu("len", 256); f.setu("tag", r.below(1u << 24)); f.setu("cls", 1 + r.below(6)); f.setu("e", t->elem); out.steps.push_back(f); } }
                 if ((fmask & 2) && sc && r.chance(1, 3)) { s.set("fault", "neigh"); s.setu("k", r.below(4096)); s.setu("ntag", r.below(1u << 20)); } else s.set("fault", "none");
